@@ -176,6 +176,10 @@ func (p *Peer) SendCheckpoint(index types.ChainIndex, n *consensus.Network, time
 			err = errors.New("checkpoint has wrong index")
 		} else if r.Block.V2.Commitment != r.State.Commitment(r.Block.MinerPayouts[0].Address, r.Block.Transactions, r.Block.V2Transactions()) {
 			err = errors.New("checkpoint has wrong commitment")
+		} else if verr := consensus.ValidateBlock(r.State, r.Block, consensus.V1BlockSupplement{Transactions: make([]consensus.V1TransactionSupplement, len(r.Block.Transactions))}); verr != nil {
+			// the ID and commitment do not cover every field (e.g. the
+			// miner payout value)
+			err = fmt.Errorf("checkpoint is invalid: %w", verr)
 		}
 	}
 	return r.State, r.Block, err
